@@ -108,6 +108,7 @@ def labelOf? (j : Json) : Option (Lb × Option (Nat × Bool)) := do
     | [.str "spawnBegin", ks] => do some (Label.spawnBegin (← (← jArr? ks).mapM kindOf?))
     | [.str "spawn", r] => do some (Label.spawn (← jStr? r))
     | [.str "spawnEnd"] => some Label.spawnEnd
+    | [.str "check", r, on] => do some (Label.check (← jStr? r) (← jBool? on))
     | [.str "arrive", r, o, g, t] => do some (Label.arrive (← jStr? r) (← jStr? o) (← jBool? g) (← jBool? t))
     | [.str "listed", r] => do some (Label.listed (← jStr? r))
     | [.str "index", r, o] => do some (Label.index (← jStr? r) (← jStr? o))
